@@ -155,6 +155,26 @@ func parseVia(name, text, entry string, plan *ReaderPlan, uniq string) *parseRes
 			}
 			res.m, res.err = asm.ParseFile(p)
 			os.Remove(p)
+		case "procfd":
+			// ParseFile on something that is not a regular file: the read end of a
+			// pipe reached through /proc/self/fd (os.Stat reports size 0). The text
+			// is written into the pipe beforehand (it fits the pipe buffer) and the
+			// write end closed, so the reader sees the data followed by EOF.
+			r, w, perr := os.Pipe()
+			if perr != nil || len(text) > 60000 {
+				if perr == nil {
+					r.Close()
+					w.Close()
+				}
+				res.m, res.err = asm.ParseString(name, text)
+				break
+			}
+			if _, werr := w.Write([]byte(text)); werr != nil {
+				panic("harness: cannot fill pipe: " + werr.Error())
+			}
+			w.Close()
+			res.m, res.err = asm.ParseFile(fmt.Sprintf("/proc/self/fd/%d", r.Fd()))
+			r.Close()
 		default:
 			res.m, res.err = asm.ParseString(name, text)
 		}
@@ -505,7 +525,7 @@ func c12Run(sc *C12Scenario) *c12Outcome {
 	return out
 }
 
-var entries = []string{"string", "bytes", "reader", "file"}
+var entries = []string{"string", "bytes", "reader", "file", "procfd"}
 var priorKinds = []string{"parse", "parse-print", "same-mutate", "same-print-twice"}
 
 func genReader(r *rng, textLen int, allowFail bool) *ReaderPlan {
@@ -569,6 +589,13 @@ func c12GenScenario(r *rng, all []corpusFile, concurrent bool, lex int) *C12Scen
 		sc.Canary = "verif:order/metadata.ll"
 	}
 	tp := TapeParams{NPerm: 4096, NClock: 64, NPool: 256}
+	if !concurrent && *flagLibGo {
+		// The code under test starts goroutines of its own: they are tasks, and
+		// their interleaving inside one parse is drawn from the tape as well.
+		tp.NSched = 1024
+		tp.MeanGap = []int{2, 5, 20, 100, 1000}[r.intn(5)]
+		tp.EdgePct = 30
+	}
 	if concurrent {
 		tp.NSched = 2048
 		tp.MeanGap = []int{3, 10, 50, 300, 3000, 30000}[r.intn(6)]
